@@ -208,22 +208,42 @@ def _klass(p):
 
 
 def decode_fmt_template(s):
-    """pieces of a compressed core::fmt template as exported (lossy) by factgen:
-    [('lit', text) | ('arg',)]  -  bytes < 0x80 are literal lengths, >= 0x80 (shown as U+FFFD) placeholders"""
+    """pieces of a compressed core::fmt template as exported by factgen (one char per byte, Latin-1):
+    [('lit', text) | ('arg', index)].
+    Encoding (observed on the pinned nightly, confirmed against the sources of several templates): a byte n < 0x80 starts a
+    literal of n bytes (0 terminates); 0xC0 is a placeholder with default formatting whose argument index is the previous
+    index + 1; 0xC8 is followed by a little-endian u16 argument index.  Other opcodes (width / precision / flags / {:?})
+    are not supported and raise Unsupported."""
     out = []
     i = 0
+    cur = -1
     while i < len(s):
-        c = s[i]
-        if c == "\ufffd":
-            out.append(("arg",))
-            i += 1
-            # placeholder option bytes follow only for non-default formatting; not supported
-            continue
-        n = ord(c)
+        n = ord(s[i])
+        if n == 0xfffd:
+            raise Unsupported("facts written by an old driver (lossy template)")
         if n == 0:
             break
-        if n >= 0x80:
-            raise Unsupported("template byte")
-        out.append(("lit", s[i + 1:i + 1 + n]))
-        i += 1 + n
+        if n < 0x80:
+            raw = s[i + 1:i + 1 + n]
+            try:
+                raw = raw.encode("latin-1").decode("utf-8")
+            except (UnicodeDecodeError, UnicodeEncodeError):
+                pass
+            if out and out[-1][0] == "lit":
+                out[-1] = ("lit", out[-1][1] + raw)        # long literals are split into chunks of 127 bytes
+            else:
+                out.append(("lit", raw))
+            i += 1 + n
+            continue
+        if n == 0xC0:
+            cur += 1
+            out.append(("arg", cur))
+            i += 1
+            continue
+        if n == 0xC8:
+            cur = ord(s[i + 1]) | (ord(s[i + 2]) << 8)
+            out.append(("arg", cur))
+            i += 3
+            continue
+        raise Unsupported("template opcode 0x%02x" % n)
     return out
